@@ -55,7 +55,7 @@ def main(tier: str) -> int:
         "programs": "curated core (every construct alone and pairs) + VERIF_SEED-sampled preconditions: conjunctions of "
                     "<=3 literals, one nested and/or of <=3 literals, one forall over t1/t3 with and/or body of <=2 literals; "
                     "numeric comparison literals with expression depth <=2",
-        "argument_tuples_per_program": 3 if tier == "quick" else 6,
+        "argument_tuples_per_program": 3 if tier == "quick" else 4,
         "symbolic_atoms_cap": 9 if tier == "quick" else 12,
         "universe": "types t1 t2 t3<t1, constant k, objects o1 o2 o3 u1, predicates p q r s, functions f g h",
         "EPSILON": os.environ.get("EPSILON", "default 0.0001"),
